@@ -6,6 +6,7 @@
    NOT proved (oracle of harness/c02.py only): WF for all operations not listed here; LegCharge.sorted / bunched flags. *)
 From TenpyV Require Import Base.Prelude Model.Charge Model.Tensor Model.TensorOps Model.TensorDot Model.TakeSlice.
 From TenpyV Require Import Proofs.ChargeP Proofs.TensorP Proofs.TensorP2 Proofs.TensorP3 Proofs.TensorDotP Proofs.TakeSliceP.
+From TenpyV Require Import Model.TensorProg Proofs.TensorProgP Proofs.TensorProgP2 Proofs.TensorProgEx.
 Open Scope Z_scope.
 
 (* ChargeInfo.make_valid: idempotent, compatible with addition and negation (what the qtotal arithmetic relies on) *)
@@ -61,7 +62,8 @@ Theorem T02_wf_tensordot : forall ci k a b, valid_ci ci -> WF ci a -> WF ci b ->
   WF ci (tensordot ci k a b).
 Proof. exact wf_tensordot. Qed.
 
-(* take_slice(i, axis) on one axis (Model/TakeSlice.v, algorithm read from the source, NOT correspondence-checked): the result is
+(* take_slice(i, axis) on one axis (Model/TakeSlice.v, algorithm read from the source; correspondence-checked by the stream coq2 of
+   harness/c02.py): the result is
    well-formed; in particular `res._qdata_sorted is not changed` is correct: removing a constant column from the kept rows
    keeps them distinct and lexsorted; the charge rule holds for qtotal - charge of the removed index *)
 Theorem T02_wf_take_slice : forall ci ax i a, valid_ci ci -> WF ci a -> (ax < rank a)%nat ->
@@ -82,6 +84,87 @@ Theorem T02_qtotal_rules : forall ci p s alpha a b,
   qtot (outer ci a b) = make_valid ci (vadd (qtot a) (qtot b)) /\
   tdot_qtot ci a b = make_valid ci (vadd (qtot a) (qtot b)).
 Proof. exact qtotal_rules. Qed.
+
+(* ---- HISTORIES (Model/TensorProg.v).  A program is any finite list of instructions; an instruction is one of the operations above
+   (transpose with a permutation, conj, scaling by a Gaussian integer, a + alpha*b, outer, tensordot over k legs, take_slice) or
+   iswapaxes / gauge_total_charge (below), applied to POSITIONS of an environment (operands may alias, results are re-used) together with a destination: None appends the result
+   (functional form), Some d overwrites entry d (in-place form / re-binding).  applicable_prog = every instruction meets the
+   documented preconditions of its operation in the environment in which it runs.
+   Starting from well-formed tensors, EVERY entry of EVERY intermediate environment is well-formed (at most one block per combination
+   of charge blocks, charge rule, truthful _qdata_sorted), in particular each fresh result, and the total charge of each result is
+   the documented function qtot_doc of its operands' total charges.  Any number of steps, ranks, blocks, charges. *)
+Theorem T02_history : forall ci prog e, valid_ci ci -> Forall (WF ci) e -> applicable_prog ci prog e ->
+  Forall (WF ci) (run ci prog e) /\
+  forall n o dst, nth_error prog n = Some (o, dst) ->
+    let en := run ci (firstn n prog) e in
+    Forall (WF ci) en /\ applicable ci o en /\ WF ci (step ci o en) /\ qtot (step ci o en) = qtot_doc ci o en /\
+    run ci (firstn (S n) prog) e = store dst (step ci o en) en.
+Proof. exact history_wf. Qed.
+
+(* ---- the cached claim in the transposing operations (itranspose / iswapaxes of Model/TensorProg.v, with the early returns of the
+   code): the result is well-formed; whenever a column of _qdata moves the claim is RESET (that is why it stays truthful), it survives
+   only when nothing was done; the dense form is the numpy transpose / swapaxes *)
+Theorem T02_wf_itranspose_flag : forall ci p a, Permutation p (seq 0 (rank a)) -> WF ci a ->
+  WF ci (itranspose p a) /\
+  (p <> seq 0 (rank a) -> qsorted (itranspose p a) = false) /\
+  (p = seq 0 (rank a) -> itranspose p a = a) /\
+  (forall idx, length idx = rank a -> to_ndarray (itranspose p a) (gather 0%nat p idx) = to_ndarray a idx).
+Proof. exact wf_itranspose. Qed.
+
+Theorem T02_wf_iswapaxes : forall ci i j a, (i < rank a)%nat -> (j < rank a)%nat -> WF ci a ->
+  WF ci (iswapaxes i j a) /\
+  (i <> j -> qsorted (iswapaxes i j a) = false) /\
+  (i = j -> iswapaxes i j a = a) /\
+  (forall idx, length idx = rank a ->
+     to_ndarray (iswapaxes i j a) (gather 0%nat (swap_perm (rank a) i j) idx) = to_ndarray a idx).
+Proof. exact wf_iswapaxes. Qed.
+
+(* the same code WITHOUT the reset `self._qdata_sorted = False` (transpose_keepflag): everything else of WF still holds, so the result
+   is well-formed exactly when the kept claim happens to be true for the permuted rows ... *)
+Theorem T02_itranspose_keepflag_iff : forall ci p a, Permutation p (seq 0 (rank a)) -> WF ci a ->
+  (WF ci (transpose_keepflag p a) <-> (qsorted a = true -> strictly_sorted (map (gather 0%nat p) (rows a)) = true)).
+Proof. exact keepflag_wf_iff. Qed.
+
+(* ... which fails already for a 2x2-block Z_2 tensor: keeping the flag is a false claim, and the two-step history
+   t = a.transpose(); t + a  then stores a duplicate block and loses an entry (7 instead of 12); with the reset the sum is right *)
+Theorem T02_itranspose_flag_reset_needed :
+  WF [2] kf_a /\ Permutation [1%nat; 0%nat] (seq 0 (rank kf_a)) /\
+  WF [2] (transpose [1%nat; 0%nat] kf_a) /\
+  ~ claim_truthful (transpose_keepflag [1%nat; 0%nat] kf_a) /\
+  legs (transpose_keepflag [1%nat; 0%nat] kf_a) = legs kf_a /\ qtot (transpose_keepflag [1%nat; 0%nat] kf_a) = qtot kf_a /\
+  to_ndarray (add (1, 0) (transpose_keepflag [1%nat; 0%nat] kf_a) kf_a) [1%nat; 0%nat] = (7, 0) /\
+  cadd (to_ndarray (transpose_keepflag [1%nat; 0%nat] kf_a) [1%nat; 0%nat]) (cmul (1, 0) (to_ndarray kf_a [1%nat; 0%nat])) = (12, 0) /\
+  to_ndarray (add (1, 0) (transpose [1%nat; 0%nat] kf_a) kf_a) [1%nat; 0%nat] = (12, 0).
+Proof. exact keepflag_refuted. Qed.
+
+(* ---- gauge_total_charge(axis, newqtotal, new_qconj) (Model/TensorProg.v, written after the source; correspondence-checked by the
+   stream coq2 of harness/c02.py, checker check_case_c02x of Model/TensorProgCheck.v, as are iswapaxes above and take_slice):
+   the charges of leg `axis` are shifted by old_qconj * (newqtotal - qtotal), negated when the direction of the leg changes, and
+   qtotal := make_valid(newqtotal).  For a leg with qconj = +-1 whose charge rows have one entry per charge and whose blocks are the
+   ones the _qdata rows refer to, the result is well-formed (charge rule!) for BOTH values of new_qconj, has the requested total
+   charge and direction, and the same dense form *)
+Theorem T02_wf_gauge_total_charge : forall ci ax newq newqc a, valid_ci ci -> WF ci a -> (ax < rank a)%nat ->
+  length newq = length ci ->
+  (qc (nth ax (legs a) dleg) = 1 \/ qc (nth ax (legs a) dleg) = -1) -> (newqc = 1 \/ newqc = -1) ->
+  Forall (fun c => length c = length ci) (bch (nth ax (legs a) dleg)) ->
+  (forall r, In r (rows a) -> (nth ax r 0 < length (bch (nth ax (legs a) dleg)))%nat) ->
+  WF ci (gauge_total_charge ci ax newq newqc a) /\
+  qtot (gauge_total_charge ci ax newq newqc a) = make_valid ci newq /\
+  qc (nth ax (legs (gauge_total_charge ci ax newq newqc a)) dleg) = newqc /\
+  (forall idx, to_ndarray (gauge_total_charge ci ax newq newqc a) idx = to_ndarray a idx).
+Proof. exact wf_gauge. Qed.
+
+(* the shift must be multiplied by the OLD direction: with `new_qconj * chdiff` (gauge_gen false; this only differs from the code in
+   the branch old_qconj != new_qconj, where the sign of the shift is then wrong) the charge rule is violated for a U(1) tensor
+   satisfying all hypotheses above, while the code as it is gives the charges [[-1]; [-2]] and a well-formed result *)
+Theorem T02_gauge_flip_sign_needed :
+  WF [1] gg_a /\ valid_ci [1] /\
+  Forall (fun c => length c = length [1]) (bch (nth 0 (legs gg_a) dleg)) /\
+  (forall r, In r (rows gg_a) -> (nth 0 r 0 < length (bch (nth 0 (legs gg_a) dleg)))%nat) /\
+  ~ charge_rule [1] (gauge_gen false [1] 0 [1] (-1) gg_a) /\
+  WF [1] (gauge_total_charge [1] 0 [1] (-1) gg_a) /\
+  bch (nth 0 (legs (gauge_total_charge [1] 0 [1] (-1) gg_a)) dleg) = [[-1]; [-2]].
+Proof. exact gauge_wrong_sign_refuted. Qed.
 
 (* non-vacuity *)
 Definition ex2_leg : leg := mkLeg [1%nat; 2%nat] [[1]; [3]] 1.
@@ -119,6 +202,37 @@ Example T02_example_take_slice :
   rows (take_slice [4] 1 1 ex2_arr) = [[1%nat]] /\ qtot (take_slice [4] 1 1 ex2_arr) = [3].
 Proof. vm_compute. repeat split; reflexivity. Qed.
 
+(* non-vacuity of T02_history: a 9-step history on a U(1) x Z_2 tensor (unsorted blocks, total charge [1; 0]):
+   t = a.transpose([1, 0]); t.iconj(); d = tensordot(a, t, 1); s = d + 1j*d; o = outer(s, a); u = o.take_slice(2, 1);
+   u.iswapaxes(0, 2); g = d.gauge_total_charge(1, [5, 1], +1); a = 0 * u
+   (in-place steps overwrite an entry; operands alias in the addition; results are re-used).  Listed per final entry:
+   shape, qtotal, _qdata rows, _qdata_sorted *)
+Example T02_example_history :
+  valid_ci ep_ci /\ Forall (WF ep_ci) [ep_a] /\ applicable_prog ep_ci ep_prog [ep_a] /\ length ep_prog = 9%nat /\
+  map (fun a => (map ind_len (legs a), qtot a, rows a, qsorted a)) (run ep_ci ep_prog [ep_a]) =
+  [([3; 3; 3]%nat, [3; 0], [], true);
+   ([3; 3]%nat, [-1; 0], [[1; 1]; [0; 0]]%nat, false);
+   ([3; 3]%nat, [0; 0], [[0; 0]; [1; 1]]%nat, true);
+   ([3; 3]%nat, [0; 0], [[0; 0]; [1; 1]]%nat, true);
+   ([3; 3; 3; 3]%nat, [1; 0], [[0; 0; 1; 1]; [1; 1; 1; 1]; [0; 0; 0; 0]; [1; 1; 0; 0]]%nat, false);
+   ([3; 3; 3]%nat, [3; 0], [[1; 1; 1]; [0; 0; 1]]%nat, false);
+   ([3; 3]%nat, [5; 1], [[0; 0]; [1; 1]]%nat, true)].
+Proof. split; [exact ep_valid|]. split; [exact ep_a_wf|]. split; [exact ep_applicable|]. split; [reflexivity|]. exact (proj1 ep_result). Qed.
+
+(* non-vacuity of T02_wf_iswapaxes / T02_wf_gauge_total_charge: see the witnesses kf_a, gg_a of the two `needed` theorems;
+   swapping the axes of ex2_arr *)
+Example T02_example_iswapaxes :
+  rows (iswapaxes 0 1 (isort_qdata ex2_arr)) = [[0%nat; 0%nat]; [1%nat; 1%nat]] /\ qsorted (isort_qdata ex2_arr) = true /\
+  qsorted (iswapaxes 0 1 (isort_qdata ex2_arr)) = false /\ swap_perm 3 0 2 = [2%nat; 1%nat; 0%nat].
+Proof. vm_compute. repeat split; reflexivity. Qed.
+
+Print Assumptions T02_history.
+Print Assumptions T02_wf_itranspose_flag.
+Print Assumptions T02_wf_iswapaxes.
+Print Assumptions T02_itranspose_keepflag_iff.
+Print Assumptions T02_itranspose_flag_reset_needed.
+Print Assumptions T02_wf_gauge_total_charge.
+Print Assumptions T02_gauge_flip_sign_needed.
 Print Assumptions T02_wf_take_slice.
 Print Assumptions T02_qtotal_take_slice.
 Print Assumptions T02_wf_outer.
